@@ -1,5 +1,5 @@
 (* C18 oracle: the extracted decision model of cli.rs (Cli.case_validate / Cli.case_compile).
-   V <ci> <hdr> <k features | -> <schema code> <json srcs> <cbor srcs> <csv srcs> <stdin src | ->
+   V <ci> <hdr> <k features | -> <schema code> <rule kinds t|g|G.. or -> <json srcs> <cbor srcs> <csv srcs> <stdin src | ->
        srcs: comma separated  efu:bbbbbbbb  (exists, isfile, utf8 : eight library verdicts), or - for none
    C <ci> <file status code> *)
 open Cli_model
@@ -18,15 +18,17 @@ let dsrc_of s =
   | _ -> failwith "dsrc"
 let srcs_of s = if s = "-" then [] else List.map dsrc_of (String.split_on_char ',' s)
 let feats_of s = if s = "-" then None else Some (List.init (int_of_string s) (fun i -> n_of_int (i + 1)))
+let kinds_of s =
+  if s = "-" then [] else List.init (String.length s) (fun i -> n_of_int (match s.[i] with 't' -> 0 | 'g' -> 1 | _ -> 2))
 let () =
   try
     while true do
       let line = input_line stdin in
       match Common.split_tab line with
-      | "V" :: ci :: hdr :: f :: sc :: js :: cs :: ss :: si :: _ ->
+      | "V" :: ci :: hdr :: f :: sc :: rk :: js :: cs :: ss :: si :: _ ->
         let stdin_src = if si = "-" then None else Some (dsrc_of si) in
         print_endline (string_of_codes
-          (case_validate (b ci.[0]) (b hdr.[0]) (feats_of f) (n_of_int (int_of_string sc))
+          (case_validate (b ci.[0]) (b hdr.[0]) (feats_of f) (n_of_int (int_of_string sc)) (kinds_of rk)
              (srcs_of js) (srcs_of cs) (srcs_of ss) stdin_src))
       | "C" :: ci :: f :: _ ->
         print_endline (string_of_codes (case_compile (b ci.[0]) (n_of_int (int_of_string f))))
